@@ -379,10 +379,23 @@ class DiskPutGet(_DiskBase):
     descr = ("an array put on disk for a period is what get returns for that period afterwards; entries of other periods are "
              "unchanged (file content through the assumed numpy.save/load round trip)")
     inline = _DiskBase.inline + (f"{DISK}.get",)
+    cases = _DiskBase.cases + ("dated-after-the-period-was-stored-and-read-before",)
 
     def setup(self, I, ctx, case):
-        st, look0 = self.mk(I, ctx, case)
-        return {"self": st, "value": plain_array(ctx, "newarr"), "period": sym_period(I, ctx, "month"), "__look0": look0}
+        st, look0 = self.mk(I, ctx, "dated" if case.startswith("dated") else case)
+        p = sym_period(I, ctx, "month")
+        a = {"self": st, "value": plain_array(ctx, "newarr"), "period": p, "__look0": look0}
+        if case.startswith("dated-after"):
+            # history: another array was stored for the same period and read back (through the real put / get) before
+            ctx.depth += 1
+            try:
+                I.call(ctx, I.getattr(ctx, st, "put"), [plain_array(ctx, "earlier"), p], {})
+                I.call(ctx, I.getattr(ctx, st, "get"), [p], {})
+            finally:
+                ctx.depth -= 1
+            a["__w0"] = len(fs_of(ctx)["writes"])
+            a["__look0"] = lookup_of(I, ctx, st.fields["_files"])
+        return a
 
     def post(self, I, ctx, a, out, old):
         st = a["self"]
@@ -401,7 +414,7 @@ class DiskPutGet(_DiskBase):
             p0, f0 = a["__look0"](q)
             res.append(("other-periods-keep-their-file", z3.Implies(other, same_entry(I, ctx, (p1, f1), (p0, f0)))))
             # and the file of another period was not overwritten: paths of distinct periods are distinct
-            wr = fs_of(ctx)["writes"]
+            wr = fs_of(ctx)["writes"][a.get("__w0", 0):]
             pk, fk = look(key)
             res.append(("registered-file-is-dir/str(period)", z3.And(pk, path_term(unwrap(fk)) == PJOIN(dir_term("/data/v"), PSTR(*period_key(key))))))
             res.append(("one-file-written", len(wr) == 1))
@@ -534,7 +547,7 @@ class HolderGetArrayFull(Contract):
 
 class HolderSetFull(Contract):
     name = f"{HOLDER}._set"
-    prop = ("C17", "C18", "C16", "C01")
+    prop = ("C17", "C18", "C16", "C01", "C13")
     top_level = True
     cases = tuple((c[0], u) for c in CONFIGS for u in ("month", "year", "month-size-2"))
     descr = ("storing a value makes it the stored view of that period under every storage setting and changes no other period; "
@@ -663,6 +676,22 @@ def _engine_judge(self, I, case, call, nat):
     if nat["kind"] == "raise":
         return "undecided", "probe scenario raised " + nat.get("exc", "") + ": " + nat.get("msg", "")
     return ("satisfies", "all engine scenarios hold") if nat["value"].get("ok") else ("violates", "; ".join(nat["value"].get("problems", []))[:500])
+
+
+def _holderset_probes(self, case):
+    from .c13_clone import _probe
+    return [_probe(self.name, "set-input-again-on-clone")] + _engine_probes(self, case)
+
+
+def _holderset_judge(self, I, case, call, nat):
+    if "scenario" in call:
+        from .c13_clone import _NativeJudge
+        return _NativeJudge.judge_native(self, I, case, call, nat)
+    return _engine_judge(self, I, case, call, nat)
+
+
+HolderSetFull.probes = _holderset_probes
+HolderSetFull.judge_native = _holderset_judge
 
 
 for _c in CONTRACTS:
